@@ -16,7 +16,8 @@ from ..lib import fl
 
 ID = "C19"
 LEVEL = "model_checking"
-USAGES = ["none", "and", "or", "both", "mixed", "and-disabled", "or-disabled"]
+USAGES = ["none", "and", "or", "both", "mixed", "mixed-right", "and-disabled", "or-disabled", "none-unloaded"]
+ACTIVATIONS = [("General",), ("Proportional",), ("Highest", 2), ("Lowest", 2), ("First", 2, 0.0), ("Last", 2, 0.0), ("Threshold", ">=", 0.0)]
 TARGETS = {1: ["o1"], 2: ["o1", "o2", "o1+o2"]}
 KINDS = ["integral", "weighted"]
 ROWS = [(0.25, 0.5), (0.5, 0.5), (0.0, 1.0)]
@@ -29,6 +30,8 @@ def antecedents(usage: str):
         "or": ["a is t or b is t", "b is t"],
         "both": ["a is t and b is t", "a is t or b is t"],
         "mixed": ["a is t and b is t or a is t", "b is t"],  # both connectives in ONE antecedent
+        "mixed-right": ["a is t or b is t and a is t", "b is t"],  # the `and` sits inside the right operand of the `or`
+        "none-unloaded": ["a is t", "b is t", "b is t"],  # the third rule is left unloaded (activation methods skip it)
         "and-disabled": ["a is t and b is t", "a is t"],     # the connective only occurs in a disabled rule
         "or-disabled": ["a is t or b is t", "b is t"],
     }[usage]
@@ -42,7 +45,8 @@ def skeletons(tier: str):
     out = []
     for nb, no in ((1, 1), (1, 2), (2, 1), (2, 2)):
         for usages in itertools.product(USAGES, repeat=nb):
-            if tier == "quick" and (nb, no) == (2, 2) and usages not in (("and", "or"), ("or", "and"), ("both", "none"), ("none", "both"), ("mixed", "and-disabled"), ("or-disabled", "mixed")):
+            if tier == "quick" and (nb, no) == (2, 2) and usages not in (("and", "or"), ("or", "and"), ("both", "none"), ("none", "both"), ("mixed", "and-disabled"), ("or-disabled", "mixed"),
+                                                                        ("mixed-right", "none-unloaded"), ("none-unloaded", "or")):
                 continue
             for targets in itertools.product(TARGETS[no], repeat=nb):
                 for kinds in itertools.product(KINDS, repeat=no):
@@ -70,7 +74,11 @@ def build(usages, targets, kinds):
         if usage.endswith("-disabled"):
             rules[0].enabled = False  # a disabled rule is still activated (only its trigger is skipped)
         blocks.append(fl.RuleBlock(f"rb{k + 1}", activation=fl.General(), rules=rules))
-    return fl.Engine("e", input_variables=[inp("a"), inp("b")], output_variables=outs, rule_blocks=blocks)
+    engine = fl.Engine("e", input_variables=[inp("a"), inp("b")], output_variables=outs, rule_blocks=blocks)
+    for usage, rb in zip(usages, engine.rule_blocks):
+        if usage.endswith("-unloaded"):
+            rb.rules[-1].unload()
+    return engine
 
 
 def needed(usages, targets, kinds, removed):
@@ -85,14 +93,18 @@ def needed(usages, targets, kinds, removed):
             need.append(("aggregation", o))
     for k, (usage, target) in enumerate(zip(usages, targets)):
         rb = f"rb{k + 1}"
-        if usage in ("and", "both", "mixed", "and-disabled") and (rb, "conjunction") in removed:
+        if usage in ("and", "both", "mixed", "mixed-right", "and-disabled") and (rb, "conjunction") in removed:
             need.append(("conjunction", rb))
-        if usage in ("or", "both", "mixed", "or-disabled") and (rb, "disjunction") in removed:
+        if usage in ("or", "both", "mixed", "mixed-right", "or-disabled") and (rb, "disjunction") in removed:
             need.append(("disjunction", rb))
         into_integral = any(kinds[int(o[1]) - 1] == "integral" and (o, "defuzzifier") not in removed for o in target.split("+"))
         if into_integral and (rb, "implication") in removed:
             need.append(("implication", rb))
     return need
+
+
+def make_activation(spec):
+    return getattr(fl, spec[0])(*spec[1:])
 
 
 def configure(engine, kinds, removed) -> None:
@@ -106,14 +118,17 @@ def configure(engine, kinds, removed) -> None:
         rb.implication = None if (rb.name, "implication") in removed else fl.Minimum()
 
 
-def run_case(acc: Acc, engine, usages, targets, kinds, removed) -> None:
+def run_case(acc: Acc, engine, usages, targets, kinds, removed, activation=("General",)) -> None:
     configure(engine, kinds, removed)
-    case = {"usages": list(usages), "targets": list(targets), "kinds": list(kinds), "removed": sorted(map(list, removed))}
+    for rb in engine.rule_blocks:
+        rb.activation = make_activation(activation)
+    case = {"usages": list(usages), "targets": list(targets), "kinds": list(kinds), "removed": sorted(map(list, removed)),
+            "activation": list(activation)}
     errors: list[str] = []
     ready = engine.is_ready(errors)
     acc.transitions += 1
     need = needed(usages, targets, kinds, removed)
-    acc.case((usages, targets, kinds, tuple(sorted(removed))), nontrivial=bool(removed))
+    acc.case((usages, targets, kinds, tuple(sorted(removed)), activation), nontrivial=bool(removed))
     if ready != (not errors):
         acc.violate("ready-vs-errors", {}, case, not errors, ready, "is_ready() disagrees with its own error list")
     # (<=) every needed-and-missing component is reported
@@ -124,7 +139,8 @@ def run_case(acc: Acc, engine, usages, targets, kinds, removed) -> None:
     # (=>) ready implies processable
     raised = None
     for row in ROWS:
-        engine.restart()
+        for ov in engine.output_variables:
+            ov.clear()  # (not Engine.restart: that would reload the rule that is deliberately left unloaded)
         engine.input_variables[0].value, engine.input_variables[1].value = row
         try:
             engine.process()
@@ -155,11 +171,14 @@ def run_shard(tier: str, seed: int, shard):
         comps = [(f"rb{k + 1}", c) for k in range(len(usages)) for c in ("conjunction", "disjunction", "implication")]
         comps += [(f"o{k + 1}", c) for k in range(len(kinds)) for c in ("aggregation", "defuzzifier")]
         acc.states += 1
-        for r in range(len(comps) + 1):
-            for removed in itertools.combinations(comps, r):
-                rem = frozenset(removed)
-                case = {"usages": list(usages), "targets": list(targets), "kinds": list(kinds), "removed": sorted(map(list, rem))}
-                acc.guard(case, run_case, acc, engine, usages, targets, kinds, rem)
+        acts = ACTIVATIONS if len(usages) == 1 else [ACTIVATIONS[idx % len(ACTIVATIONS)]]
+        for act in acts:
+            for r in range(len(comps) + 1):
+                for removed in itertools.combinations(comps, r):
+                    rem = frozenset(removed)
+                    case = {"usages": list(usages), "targets": list(targets), "kinds": list(kinds), "removed": sorted(map(list, rem)),
+                            "activation": list(act)}
+                    acc.guard(case, run_case, acc, engine, usages, targets, kinds, rem, act)
         if idx == 5:
             acc.sample({"usages": list(usages), "targets": list(targets), "kinds": list(kinds),
                         "removed": [["rb1", "disjunction"]], "rules": [str(r.text) for r in engine.rule_blocks[0].rules]}, 1)
@@ -173,7 +192,9 @@ def summarize(tier: str, seed: int, merged: dict) -> dict:
     return {
         "rule": (
             f"{len(skeletons(tier))} skeletons (blocks x outputs in {{1,2}}^2; connective usage per block in {USAGES} - `mixed` = "
-            "both connectives in one antecedent, `*-disabled` = the connective only occurs in a disabled rule; "
+            "both connectives in one antecedent (`mixed-right`: the `and` inside the right operand of the `or`), `*-disabled` = the "
+            "connective only occurs in a disabled rule, `none-unloaded` = an extra unloaded rule; all 7 activation methods "
+            "for 1-block skeletons, one rotating method otherwise; "
             "conclusion targets o1 / o2 / both; output kind integral / weighted) x every subset of the removable "
             "components (3 per block + 2 per output, up to 2^10); states = engine configurations, transitions = "
             "is_ready + process calls, traces = configurations judged against the reference needs; non-trivial = at "
@@ -190,5 +211,5 @@ def replay(case: dict):
     usages, targets, kinds = tuple(case["usages"]), tuple(case["targets"]), tuple(case["kinds"])
     engine = build(usages, targets, kinds)
     rem = frozenset(tuple(x) for x in case["removed"])
-    acc.guard(case, run_case, acc, engine, usages, targets, kinds, rem)
+    acc.guard(case, run_case, acc, engine, usages, targets, kinds, rem, tuple(case.get("activation", ["General"])))
     return acc.violations
